@@ -40,6 +40,16 @@ FUNCS = [
     ("routing_param_disambiguated_field", "gapic/schema/wrappers.py", "RoutingParameter.disambiguated_field", [("field", "Str")]),
     ("client_method_name", "gapic/schema/wrappers.py", "Method.client_method_name", [("name", "Str"), ("is_internal", "Bool")]),
     ("sort_lines", "gapic/utils/lines.py", "sort_lines", []),
+    ("service_client_name", "gapic/schema/wrappers.py", "Service.client_name", [("is_internal", "Bool"), ("name", "Str")]),
+    ("service_async_client_name", "gapic/schema/wrappers.py", "Service.async_client_name", [("is_internal", "Bool"), ("name", "Str")]),
+    ("service_transport_name", "gapic/schema/wrappers.py", "Service.transport_name", [("name", "Str")], {"ret": "Str"}),
+    ("service_grpc_transport_name", "gapic/schema/wrappers.py", "Service.grpc_transport_name", [("name", "Str")], {"ret": "Str"}),
+    ("service_grpc_asyncio_transport_name", "gapic/schema/wrappers.py", "Service.grpc_asyncio_transport_name", [("name", "Str")], {"ret": "Str"}),
+    ("service_rest_transport_name", "gapic/schema/wrappers.py", "Service.rest_transport_name", [("name", "Str")], {"ret": "Str"}),
+    ("service_module_name", "gapic/schema/wrappers.py", "Service.module_name", [("name", "Str")]),
+    ("naming_module_name", "gapic/schema/naming.py", "Naming.module_name", [("name", "Str")]),
+    ("new_naming_versioned_module_name", "gapic/schema/naming.py", "NewNaming.versioned_module_name", [("module_name", "Str"), ("version", "Str")]),
+    ("old_naming_versioned_module_name", "gapic/schema/naming.py", "OldNaming.versioned_module_name", [("module_name", "Str"), ("version", "Str")]),
     # `subst`: sub-expressions (by source text) that become parameters; `ret`: the return type of an un-annotated property
     ("metadata_doc", "gapic/schema/metadata.py", "Metadata.doc", [],
      {"subst": {"self.documentation.leading_comments": ("leading", "Str"), "self.documentation.trailing_comments": ("trailing", "Str"),
@@ -294,6 +304,8 @@ class Tr:
                     args.append(t)
                 return f"({lean_name} {' '.join(args)})", sig["ret"]
             raise Refused(f"call of {f.id}")
+        if isinstance(f, ast.Attribute) and isinstance(f.value, ast.Name) and f.value.id == "utils" and f.attr in self.known:
+            return self.call(ast.Call(func=ast.Name(id=f.attr, ctx=ast.Load()), args=e.args, keywords=[]))      # gapic.utils re-exports the function
         if isinstance(f, ast.Attribute) and isinstance(f.value, ast.Name) and f.value.id == "re":
             if f.attr == "sub" and len(e.args) == 3:
                 pat = self.pattern(e.args[0])
